@@ -50,7 +50,7 @@ NESTED = [
 ]
 ELEMS = SCALARS + NEGS + NONLITS + NESTED
 ELEMS_SMALL = [INT, STR, "lit n 0 0 nil", "lit i 1 0 int", "un 1 " + INT, ID, ll("t", [INT, INT]), ll("t", [ID, INT]), ll("a", []), ll("a", [INT]),
-               ll("a", [ll("a", [])]), "lit t 0 0 nil"]
+               ll("a", [ll("a", [])]), "lit t 0 0 nil", ll("a", [ID]), ll("t", ["un 1 " + INT, INT])]
 
 ATOMS = [ID, INT, "nil", "op 1"]
 
